@@ -1,9 +1,174 @@
-(* C11 — property theorems only. *)
+(* C11 — property theorems only.  Each is closed by [exact] of a lemma proved
+   under C11/ and followed by Print Assumptions.  Definitions used in the
+   statements: C11/Model.v (the code), ProofsAL.ref_step / norm_index /
+   ref_place (reference sequence), ProofsSeq.ref_st_step / ref_ll_step /
+   ref_qu_step, ProofsPS.spec_ok (reference association list of the pointer
+   slot), ProofsPS.seg (ring segment [alloc_index, alloc_index + free)). *)
 From MV Require Import C11.Model C11.Proofs.
 Local Open Scope Z_scope.
 
-Theorem ps_unrepaired_out_of_bounds :
+(* ---- array list ---- *)
+
+(* Every operation with every int index (other than INT_MIN) on every state
+   that satisfies the representation invariant: the invariant is kept and the
+   contents and result equal the reference list operation; when the operation
+   needs storage it cannot get, it is rejected with no effect on contents,
+   size and capacity.  (A rejected position leaves contents and size as they
+   are by definition of ref_step.) *)
+Theorem al_refines_seq : forall s o, al_inv s -> al_op_ok o ->
+  al_inv (fst (al_step s o)) /\
+  if alloc_fails s o
+  then al_contents (fst (al_step s o)) = al_contents s /\ asize (fst (al_step s o)) = asize s /\
+       acap (fst (al_step s o)) = acap s /\ snd (al_step s o) = al_rejected
+  else (al_contents (fst (al_step s o)), snd (al_step s o)) = ProofsAL.ref_step (al_contents s) o.
+Proof. exact al_step_refines. Qed.
+Print Assumptions al_refines_seq.
+
+(* every history from init, any initial capacity, growth and malloc failures included *)
+Theorem al_history_refines_seq : forall c ok s ops, 0 <= c < two64 -> al_init c ok = Some s -> Forall al_op_ok ops ->
+  (al_contents (fst (al_run s ops)), snd (al_run s ops)) = ProofsAL.ref_run [] ops (fail_flags s ops) /\
+  asize (fst (al_run s ops)) = zlen (al_contents (fst (al_run s ops))).
+Proof. exact al_history_refines. Qed.
+Print Assumptions al_history_refines_seq.
+
+(* index normalisation: muggle_array_list_get_index is the reference position *)
+Theorem al_get_index_is_norm_index : forall s index, al_inv s -> int_ok index ->
+  al_get_index s index = match norm_index (asize s) index with Some p => p | None => -1 end.
+Proof. exact al_get_index_spec. Qed.
+Print Assumptions al_get_index_is_norm_index.
+
+Theorem al_index_refines_seq : forall s i, al_inv s -> int_ok i ->
+  al_index s i = match norm_index (asize s) i with Some p => Some (znth (al_contents s) p) | None => None end.
+Proof. exact al_index_refines. Qed.
+Print Assumptions al_index_refines_seq.
+
+Theorem al_find_refines_seq : forall cmp s i d, al_inv s -> int_ok i ->
+  al_find cmp s i d = match norm_index (asize s) i with
+                      | Some p => to_int (find_from cmp (skipn (Z.to_nat p) (al_contents s)) p d)
+                      | None => -1 end.
+Proof. exact al_find_refines. Qed.
+Print Assumptions al_find_refines_seq.
+
+(* ---- stack ---- *)
+
+Theorem stack_refines_seq : forall s o, st_inv s -> st_op_ok o ->
+  st_inv (fst (st_step s o)) /\
+  if st_alloc_fails s o
+  then st_contents (fst (st_step s o)) = st_contents s /\ stop (fst (st_step s o)) = stop s /\
+       scap (fst (st_step s o)) = scap s /\ snd (st_step s o) = (false, [])
+  else (st_contents (fst (st_step s o)), snd (st_step s o)) = ref_st_step (st_contents s) o.
+Proof. exact st_step_refines. Qed.
+Print Assumptions stack_refines_seq.
+
+Theorem stack_history_refines_seq : forall c ok s ops, 0 <= c < two64 -> st_init c ok = Some s -> Forall st_op_ok ops ->
+  (st_contents (fst (st_run s ops)), snd (st_run s ops)) = ref_st_run [] ops (st_fail_flags s ops).
+Proof. exact st_history_refines. Qed.
+Print Assumptions stack_history_refines_seq.
+
+(* ---- linked list and queue (functional models; pointer splicing is checked by the driver) ---- *)
+
+Theorem list_refines_seq : forall c ok s ops, ll_init c ok = Some s -> ll_ops_ok s ops ->
+  (ll_data (fst (ll_run s ops)), snd (ll_run s ops)) = ref_ll_run [] ops (ll_fail_flags s ops) /\
+  NoDup (map fst (litems (fst (ll_run s ops)))) /\
+  lsize (fst (ll_run s ops)) = zlen (ll_data (fst (ll_run s ops))).
+Proof. exact ll_history_refines. Qed.
+Print Assumptions list_refines_seq.
+
+Theorem queue_refines_seq : forall c ok s ops, qu_init c ok = Some s ->
+  (qu_data (fst (qu_run s ops)), snd (qu_run s ops)) = ref_qu_run [] ops (qu_fail_flags s ops) /\
+  NoDup (map fst (qitems (fst (qu_run s ops)))) /\
+  qsize (fst (qu_run s ops)) = zlen (qu_data (fst (qu_run s ops))).
+Proof. exact qu_history_refines. Qed.
+Print Assumptions queue_refines_seq.
+
+(* ---- pointer slot (repaired init: arrays sized by the rounded capacity) ---- *)
+
+(* In every state reachable from init with any requested capacity <= 2^31 and
+   any cursor preset: the ring segment [alloc_index, alloc_index + free) of
+   pp_slots lists exactly the free slots, without duplicates; free + live =
+   capacity; the cursors are related modulo 2^32; the live list has no
+   duplicates and is exactly the set of slots in use. *)
+Theorem ps_inv_reachable : forall req a s0 ops, 0 <= req <= two31 -> ps_init req true = Some s0 ->
+  Forall op_ok ops ->
+  exists s' rs, ps_run (ps_preset s0 a) ops = Some (s', rs) /\
+    NoDup (seg s') /\ (forall sid, In sid (seg s') <-> slot_used (slots s') sid false) /\
+    zlen (seg s') + zlen (live s') = pcap s' /\
+    free_index s' = u32 (alloc_index s' - zlen (live s')) /\
+    free_index s' mod pcap s' = (alloc_index s' + zlen (seg s')) mod pcap s' /\
+    NoDup (live s') /\ (forall sid, In sid (live s') <-> slot_used (slots s') sid true) /\
+    zlen (slots s') = pcap s' /\ zlen (pp s') = pcap s'.
+Proof. exact ps_inv_reachable_lem. Qed.
+Print Assumptions ps_inv_reachable.
+
+(* reachable states satisfy the invariant used by the step theorems below *)
+Theorem ps_reachable_states_invariant : forall req a s0 ops s' rs, 0 <= req <= two31 -> ps_init req true = Some s0 ->
+  Forall op_ok ops -> ps_run (ps_preset s0 a) ops = Some (s', rs) -> ps_inv s'.
+Proof. exact ps_reachable_inv. Qed.
+Print Assumptions ps_reachable_states_invariant.
+
+(* an index handed out is not live, is in range, and resolves to the pointer *)
+Theorem ps_unique_live : forall s d s' i, ps_inv s -> ps_insert s d = Some (s', (POk, i)) ->
+  ~ In i (live s) /\ NoDup (live s') /\ 0 <= i < pcap s /\ lookup i (ps_iter s') = Some d /\ ps_get s' i = Some d.
+Proof. exact ps_insert_then_get. Qed.
+Print Assumptions ps_unique_live.
+
+(* ... and keeps resolving to it over any history that does not remove it *)
+Theorem ps_get_until_removed : forall ops s i d, ps_inv s -> Forall op_ok ops ->
+  lookup i (ps_iter s) = Some d -> ~ In (PRem i) ops ->
+  exists s' rs, ps_run s ops = Some (s', rs) /\ lookup i (ps_iter s') = Some d /\ ps_get s' i = Some d.
+Proof. exact ps_get_until_removed_run. Qed.
+Print Assumptions ps_get_until_removed.
+
+(* insert is refused exactly when every slot is live *)
+Theorem ps_full_refuses : forall s d, ps_inv s ->
+  (zlen (live s) = pcap s -> ps_insert s d = Some (s, (PFull, -1))) /\
+  (zlen (live s) < pcap s -> exists s' i, ps_insert s d = Some (s', (POk, i))).
+Proof. exact ps_full_refuses_lem. Qed.
+Print Assumptions ps_full_refuses.
+
+(* after a removal the index resolves to NULL and a second removal is refused without effect *)
+Theorem ps_double_remove_refused : forall s i s', ps_inv s -> 0 <= i < two32 -> ps_remove s i = Some (s', POk) ->
+  ps_get s' i = Some 0 /\ ps_remove s' i = Some (s', PDup).
+Proof. exact ps_remove_then_get. Qed.
+Print Assumptions ps_double_remove_refused.
+
+(* iteration yields the live (index, pointer) pairs in insertion order: it equals the
+   reference association list driven by the results, and every result is one the
+   reference allows (spec_ok) *)
+Theorem ps_iter_insertion_order : forall req a s0 ops, 0 <= req <= two31 -> ps_init req true = Some s0 ->
+  Forall op_ok ops ->
+  exists s' rs, ps_run (ps_preset s0 a) ops = Some (s', rs) /\
+    ps_iter s' = ProofsPS.ref_run [] ops rs /\ spec_run_ok (pcap s0) [] ops rs.
+Proof. exact ps_iter_insertion_order_lem. Qed.
+Print Assumptions ps_iter_insertion_order.
+
+(* every single step refines the reference *)
+Theorem ps_step_refines_spec : forall s o, ps_inv s -> op_ok o ->
+  exists s' r, ps_step s o = Some (s', r) /\ ps_inv s' /\ pcap s' = pcap s /\
+               spec_ok (pcap s) (ps_iter s) o r (ps_iter s').
+Proof. exact ps_step_refines. Qed.
+Print Assumptions ps_step_refines_spec.
+
+(* for every requested capacity no operation of any history reads or writes outside
+   slots[] / pp_slots[] (the model returns None on such an access), and both
+   arrays have the rounded capacity, which is >= the request *)
+Theorem ps_all_capacities : forall req a s0 ops, 0 <= req <= two31 -> ps_init req true = Some s0 ->
+  Forall op_ok ops ->
+  ps_run (ps_preset s0 a) ops <> None /\ ps_run s0 ops <> None /\
+  zlen (slots s0) = pcap s0 /\ zlen (pp s0) = pcap s0 /\ req <= pcap s0 /\ 1 <= pcap s0.
+Proof. exact ps_all_capacities_lem. Qed.
+Print Assumptions ps_all_capacities.
+
+(* the same statement is false for the code before fixes/C11-pointer-slot-alloc-rounded.patch *)
+Theorem ps_all_capacities_refuted_before_repair :
   exists s, ps_init_unrepaired 3 true = Some s /\
-            ps_run s [PIns 1; PIns 2; PIns 3; PIns 4] = None.
+            ps_run s [PIns 1; PIns 2; PIns 3; PIns 4] = None /\
+            ps_run s [PGet 3] = None.
 Proof. exact ps_unrepaired_oob_witness. Qed.
-Print Assumptions ps_unrepaired_out_of_bounds.
+Print Assumptions ps_all_capacities_refuted_before_repair.
+
+(* muggle_next_pow_of_2 (as used by pointer_slot_init) rounds up to a power of two *)
+Theorem next_pow_of_2_rounds_up : forall c, 1 <= c <= two31 ->
+  is_pow2_cap (u32 (next_pow_of_2 (u64 c))) /\ c <= u32 (next_pow_of_2 (u64 c)).
+Proof. exact next_pow_of_2_spec. Qed.
+Print Assumptions next_pow_of_2_rounds_up.
